@@ -74,7 +74,11 @@ func (t *_ticker) run() {
 
 		case <-t.resetch:
 			if !timer.Stop() {
-				<-timer.C
+				// the tick may already have been consumed below; never block here
+				select {
+				case <-timer.C:
+				default:
+				}
 			}
 			timer.Reset(t.nextPeriod())
 			nextch = nil
